@@ -1,6 +1,7 @@
 package main
 
 import (
+	"sync"
 	"fmt"
 	"go/token"
 	"go/types"
@@ -20,6 +21,7 @@ type Loaded struct {
 	funcs  map[string]*ssa.Function
 	tcache map[string]types.Type
 	allFuncs map[*ssa.Function]bool
+	mu sync.Mutex
 }
 
 const goRoot = "/opt/veriftools/go1.26.8"
@@ -65,6 +67,8 @@ func rootParent(fn *ssa.Function) *ssa.Function {
 }
 
 func (ld *Loaded) typeOf(expr string) types.Type {
+	ld.mu.Lock()
+	defer ld.mu.Unlock()
 	expr = strings.TrimSpace(expr)
 	if t, ok := ld.tcache[expr]; ok {
 		return t
